@@ -1161,3 +1161,45 @@ def soft_large_bounded(spec, cfg, tier, seed):
         r.wall_s = round(time.time() - t0, 2)
         res.append(r)
     return res
+
+
+# ================================================================================================ reference tables of the demodulators
+def _ref_cfgs(tier):
+    out = [c for c in mods.catalogue("thorough") if c[0] not in ("bpsk", "oqpsk")]  # construction only: all orders in both tiers
+    out += [Cfg("dpsk_alias", b, g, style) for b in (1, 2, 3, 4) for g in ("gray", "bin") for style in ("bits_per_symbol+gray_coded", "order+gray_coded", "bits_per_symbol+gray_coding", "order+both_disagreeing")]
+    return out
+
+
+@obligation("C06.demodulator_reference_tables", function=FM + "psk.py:QPSKDemodulator.__init__; " + FM + "psk.py:PSKDemodulator.__init__; " + FM + "qam.py:QAMDemodulator.__init__; " + FM + "pam.py:PAMDemodulator.__init__; " + FM + "dpsk.py:DPSKDemodulator.__init__; " + FM + "pi4qpsk.py:Pi4QPSKDemodulator.__init__",
+            configs=_ref_cfgs, kind="ground", engine="ground")
+def demodulator_reference_tables(cfg):
+    """the C06 contracts read points and labels off the table the demodulator decides against (its internal reference modulator);
+    this closes the loop: that table IS the table of the modulator built with the same options (every option spelling) - buffers
+    compared exactly"""
+    from kaira.modulations import dpsk
+
+    if cfg[0] == "dpsk_alias":
+        _, b, g, style = cfg
+        gc = g == "gray"
+        kw = {"bits_per_symbol+gray_coded": dict(bits_per_symbol=b, gray_coded=gc), "order+gray_coded": dict(order=2**b, gray_coded=gc), "bits_per_symbol+gray_coding": dict(bits_per_symbol=b, gray_coding=gc),
+              "order+both_disagreeing": dict(order=2**b, gray_coding=not gc, gray_coded=gc)}[style]
+        mod, dem = dpsk.DPSKModulator(**kw), dpsk.DPSKDemodulator(**kw)
+        canon = dpsk.DPSKModulator(order=2**b, gray_coding=gc)
+        yield "alias_options_build_the_documented_scheme", _same_buffers(mod, canon), f"DPSKModulator({kw}) vs DPSKModulator(order={2 ** b}, gray_coding={gc})"
+    else:
+        mod, dem = mods.build(cfg)
+    ref = getattr(dem, "modulator", None)
+    if ref is None:
+        yield "demodulator_has_reference_modulator", False, f"{type(dem).__name__} has no .modulator"
+        return
+    yield "reference_table_is_the_modulators_table", _same_buffers(ref, mod), f"{type(dem).__name__}.modulator buffers vs {type(mod).__name__} buffers: {sorted(_bufs(mod))}"
+    yield "same_bits_per_symbol", dem.bits_per_symbol == mod.bits_per_symbol == ref.bits_per_symbol, f"{dem.bits_per_symbol} / {mod.bits_per_symbol} / {ref.bits_per_symbol}"
+
+
+def _bufs(m):
+    return {k: v for k, v in m.named_buffers() if not k.startswith("_")}
+
+
+def _same_buffers(a, b):
+    x, y = _bufs(a), _bufs(b)
+    return x.keys() == y.keys() and all(x[k].shape == y[k].shape and x[k].dtype == y[k].dtype and bool(torch.equal(x[k], y[k])) for k in x)
